@@ -57,7 +57,7 @@ CHECKS = {
         "setter are explored path by path on symbolic IEEE-754 doubles (exact fpDiv for Resistivity): accepted <=> conductivity / "
         "mu_r / eps_r positive and finite. The property list that "
         "estimate_gridding_opts hands to the automatic gridding is the mapped minimum conductivity of the source cell and the "
-        "boundary faces for every ordering of symbolic cell values.",
+        "boundary faces for every ordering of symbolic cell values. Session 2: the four log maps are validated with an abstract IEEE backward function (NaN, infinite ends, sign); results of forward/backward held two at a time are independent.",
    note=NOTE_COMMON+" The transcendental functions are environment stubs constrained only by the listed axioms; floating-point accuracy over twelve decades and the IEEE behaviour of the four log maps are outside.",
    technique="symbolic execution on z3 Real terms with axiomatised uninterpreted functions (UF+NRA validity) and Float64 path exploration for input validation",
    ref="DESIGN.md §6 C14"),
@@ -69,7 +69,7 @@ CHECKS = {
         "Model.interpolate_to_grid run on concrete dyadic grid pairs (equal, nested, finer, shifted, overhanging, inside, "
         "interleaved) with all cell values symbolic: kernel == independent overlap oracle, conservation, range, identity, "
         "forward == (adjoint)^T per component without cross-talk, log mode = 10**(average of log10) with rho/sigma symmetry "
-        "(log10/10** axiomatised), log mode chosen from the mapping and explicit log= honoured.",
+        "(log10/10** axiomatised), log mode chosen from the mapping and explicit log= honoured. Session 2: a pair whose output cell centres lie outside the input grid; Model.interpolate_to_grid after in-place updates of the values.",
    note=NOTE_COMMON+" 3-D grids are concrete (10 pairs); the 1-D routine is fully symbolic up to 4x3 cells (thorough 4x4). discretize's volume_average is probed with unit vectors to obtain the adjoint matrix.",
    technique="symbolic execution with forking comparisons over symbolic node coordinates (every interleaving = one path) + LIN/UF validity queries; concrete-grid symbolic-value identities",
    ref="DESIGN.md §6 C15"),
@@ -92,7 +92,7 @@ CHECKS = {
         "cannot fire, no segment of a wire is dropped, only edges of bounding-box cells are non-zero. get_source_field: field "
         "== vector*strength*(-s mu0) with symbolic strength (None/frequency/Laplace), repeated calls on one Source instance, wire "
         "= sum of segments. Conversions for ALL dipoles: point_to_dipole(dipole_to_point(d)) = d; square loop closed, square of "
-        "that area, perpendicular sides, right-handed normal = area*direction, centred (NRA with axiomatised trigonometry).",
+        "that area, perpendicular sides, right-handed normal = area*direction, centred (NRA with axiomatised trigonometry). Session 2: point-source support (every non-zero entry lies in a tri-linear hat function that contains the point; the extrapolation stencil of the outermost half cell is allowed and stated).",
    note=NOTE_COMMON+" np.round(.,9) identity; Euclidean norm of vectors parallel to the known direction computed exactly (parallelism checked per call); dipoles in the outermost node plane excluded; dipole span bounded (quick: <= 2 nodes axis-aligned, 1 cell oblique).",
    technique="symbolic execution with forking clipping comparisons (path = crossing class) + NRA validity queries; axiomatised cos/sin/angle for the conversions",
    ref="DESIGN.md §6 C10"),
@@ -104,7 +104,7 @@ CHECKS = {
         "to_dict/from_dict and select every entry of noise floor / relative error / std equals its value before and arrays "
         "handed out earlier are untouched; copies share nothing; select returns exactly the chosen datum with its settings; "
         "explicit re-assignment (array -> scalar -> None -> array) is honoured; Simulation.misfit = 1/2 sum_finite |r|^2/std^2 "
-        "(NaN datum skipped) and uses the new settings after re-assignment + clean.",
+        "(NaN datum skipped) and uses the new settings after re-assignment + clean. Session 2: a survey re-used by a NEW simulation after a noise-model change or after gaps in the observed data were filled/opened must give the misfit of the current settings.",
    note=NOTE_COMMON+" Survey shape 2x2x1 (thorough also 1x1x1, 2x1x2); |z| and sqrt as fresh variables with s^2=x; xarray's sum(skipna) modelled for the NaN datum; misfit/clean run on a duck-typed carrier of the survey.",
    technique="symbolic execution of Survey/misfit code on xarray-over-solver-terms with forking data cuts + SMT validity of equalities (LIN/NRA)",
    ref="DESIGN.md §6 C13"),
@@ -127,7 +127,7 @@ CHECKS = {
         "(including coincidences) is a path; per path z3 decides: three disjoint exhaustive groups {f<fmin, fmin<=f<=fmax, "
         "f>fmax}, computed frequencies inside the band, zero above, a datum is stored only at a required frequency equal to "
         "its own, pass-through where computed == required, the extrapolation is anchored at (1e-100 Hz, Re d[0]) plus exactly "
-        "the computed data, and the reference transform receives the filled spectrum at the required frequencies.",
+        "the computed data, and the reference transform receives the filled spectrum at the required frequencies. Session 2: the Fourier object is built through its real __init__ (empymod.utils.check_time is the stub); histories on one instance: a second interpolate() does not change the first result, signal/Fourier arguments changed through setters reach the transform, slots above a lowered fmax are zero.",
    note=NOTE_COMMON+" InterpolatedUnivariateSpline (interpolating: passes through its data), PchipInterpolator and empymod's transform are contract stubs whose INPUTS are checked; monotonic decay of the extrapolated imaginary part and numerical equality with the transform are outside.",
    technique="symbolic execution with forking comparisons of symbolic frequencies (path = ordering class) + LIA/LRA validity queries; environment stubs for spline/PCHIP/transform",
    ref="DESIGN.md §6 C20"),
@@ -148,7 +148,7 @@ CHECKS = {
         "operator, chain rule, HTI/VTI/triaxial stacking) and J v is the receiver sampling of that solve stored per "
         "source/receiver/frequency; (b) jtvec(w) satisfies C07's adjoint-source and gradient-assembly identities with w in "
         "place of the weighted residual (so J^T = G^T A^-T P^T is the exact adjoint of J = P A^-1 G given A = A^T and P = V^T); "
-        "(c) jtvec(residual*weights) equals the gradient entry by entry.",
+        "(c) jtvec(residual*weights) equals the gradient entry by entry. Session 2: J v with gridding='dict' (two sources on two grids of equal shape): the sensitivity source of each source equals -(dA/dp . V v)E with v volume-averaged to ITS OWN grid (independent overlap oracle).",
    note=NOTE_COMMON+" Adjointness is derived from (a)+(b)+C02 symmetry+C09 transposes (mathematics); for gridding != 'same' the extra factor is the volume-averaging pair of C15; discretize's edge inner-product derivative is used as diag(u)@A (checked numerically per call).",
    technique="symbolic execution of jvec/jtvec on a real Simulation with an uninterpreted solver + SMT validity of polynomial identities; adjoint/FD replay on the real package",
    ref="DESIGN.md §6 C08"),
@@ -159,7 +159,7 @@ CHECKS = {
         "model and vectors and with emg3d.solve as ONE uninterpreted function of (model values, source-field values, tolerance); "
         "afterwards z3 decides, entry by entry, that synthetic data, misfit and gradient equal those of a freshly built "
         "simulation sharing the same uninterpreted function (so stale caches, aliasing between copies and a wrong tolerance "
-        "hand-over are all visible for EVERY numeric content); copies must carry the computed state.",
+        "hand-over are all visible for EVERY numeric content); copies must carry the computed state. Session 2: the RETURN VALUES of a final jvec/jtvec are compared with the same call on a fresh simulation; two-source sequences cover partially computed simulations.",
    note=NOTE_COMMON+" Histories are enumerated (246 quick / ~1600 thorough), the numeric content is symbolic; exact-solve idealisation (independent of initial guess); real file I/O and file-based execution are outside (to_file is modelled by its _what_to_file/to_dict hand-over).",
    technique="differential symbolic execution of operation histories with an uninterpreted solver function + SMT validity of result equalities; replay of failing histories on the real package",
    ref="DESIGN.md §6 C12"),
@@ -190,7 +190,7 @@ CHECKS = {
         "identically the C02 reference operator's residual on the block's edges of the updated field (all widths, model, "
         "field, source, x). core.solve is proved exact per n (1..26 thorough) by cut-and-invert: in-place updates are inverted "
         "so that A x = b is a polynomial identity in the final variables. Plus: A_loc independent of field/source, rhs "
-        "affine, boundary never written, every interior edge relaxed, smoothing() dispatch on two-cell grids.",
+        "affine, boundary never written, every interior edge relaxed, smoothing() dispatch on two-cell grids. Session 2: a zero-source probe with the field on the first/last grid line (local right-hand sides exactly zero) and detection of data-dependent branches in the kernels (reported inconclusive, never held).",
    note=NOTE_COMMON+" Fixed-point / last-block-exact clauses are derived mathematically from (local system == operator rows for all x) + (solve exact) + non-singularity. Pivots assumed non-zero (code's documented precondition).",
    technique="symbolic execution of the real kernels on z3 terms with a recording stub for the inner solver + cut-and-invert encoding of the LDL^T band solver; SMT validity of polynomial identities",
    ref="DESIGN.md §6 C03"),
@@ -199,7 +199,7 @@ CHECKS = {
         "Krylov matvec are executed on z3 Real terms with ALL widths, model entries and field entries symbolic; for every "
         "grid shape in the bound z3 decides (unsat of the negation) that each interior-edge output is identically the "
         "checker-assembled curl^T M_f curl + M_e operator, plus symmetry, gradient null-space and boundary rows. Holds for "
-        "all values; bounded in grid shape (quick {2,3,4}^3, thorough {2..5}^3 + extremes).",
+        "all values; bounded in grid shape (quick {2,3,4}^3, thorough {2..5}^3 + extremes). Session 2: solve() is run through a history on ONE Model object (in-place index assignment, setter, Laplace/frequency of equal |f|, other frequency) and the coefficients handed to the kernels must equal a fresh VolumeModel of a fresh Model; VolumeModel is constructed twice on a real BaseMesh.",
    note=NOTE_COMMON+" Shape-bound argument: kernel distinguishes only first/interior/last index per direction. Jit-vs-source agreement is validated numerically, not proved.",
    technique="symbolic execution of the real Python source on z3 terms (shadow package) + SMT validity of polynomial identities (z3 NRA), counterexamples replayed on the jitted kernel",
    ref="DESIGN.md §6 C02"),
